@@ -24,7 +24,8 @@ type K struct {
 	SView *Term
 	SHeight *Term
 	MyId *Term // tic.myMemberId
-	leaderFns []*ssa.Function
+	leaderFns []*ssa.Function // every function indexing a committee slice with a computed index (I4.single wants exactly one)
+	leaderFn  *ssa.Function   // the leader function among them
 	MissingLatch []string
 }
 
@@ -59,6 +60,7 @@ func (a *Analyzer) Anchors() *K {
 	a.requireField("state.ViewContexts", "hvToContext", "newestHvCanceledOlder", "shutdown")
 	a.requireField("services/rawmessagesfilter.RawMessageFilter", "futureCache", "consensusMessagesHandler", "instanceId", "myMemberId")
 	k.leaderFns = a.findLeaderFns()
+	k.leaderFn = k.pickLeaderFn()
 	return k
 }
 
@@ -153,10 +155,10 @@ func (a *Analyzer) findLeaderFns() []*ssa.Function {
 
 // LeaderOf(v): the term the builder produces for a call of the leader function on (v, committee).
 func (k *K) LeaderOf(v *Term) *Term {
-	if len(k.leaderFns) != 1 {
+	if k.leaderFn == nil {
 		broken("unresolved anchor: expected exactly one leader-index function, found %d", len(k.leaderFns))
 	}
-	f := k.leaderFns[0]
+	f := k.leaderFn
 	args := make([]*Term, len(f.Params))
 	for i, p := range f.Params {
 		switch {
@@ -235,4 +237,36 @@ func isSelfMsg(t *Term) bool {
 
 func mentionsRoot(t *Term, root string) bool {
 	return t.Contains(func(s *Term) bool { return s.Op == "root" && s.Name == root })
+}
+
+// pickLeaderFn: the single function that indexes a committee with a computed index; when other functions do so too
+// (reported by I4.single), the one with the leader signature: (view, committee | singleton receiver) -> MemberId.
+func (k *K) pickLeaderFn() *ssa.Function {
+	if len(k.leaderFns) == 1 {
+		return k.leaderFns[0]
+	}
+	var cands []*ssa.Function
+	for _, f := range k.leaderFns {
+		res := f.Signature.Results()
+		if res.Len() != 1 || typeShort(res.At(0).Type()) != "primitives.MemberId" {
+			continue
+		}
+		hasView, ok := false, true
+		for _, p := range f.Params {
+			switch {
+			case typeShort(p.Type()) == "primitives.View":
+				hasView = true
+			case isCommitteeSlice(p.Type()), k.A.singletonOf(p.Type()) != "":
+			default:
+				ok = false
+			}
+		}
+		if hasView && ok {
+			cands = append(cands, f)
+		}
+	}
+	if len(cands) == 1 {
+		return cands[0]
+	}
+	return nil
 }
